@@ -1120,11 +1120,30 @@ class Tensor:
 
         f = Op()
 
+        # constant-status of the op's output
+        if constant is None and all(var.constant for var in tensor_vars):
+            out_constant = True
+        else:
+            out_constant = constant
+
         try:
             if out is None:
                 op_out: np.ndarray = f(*tensor_vars, *op_args, **op_kwargs)
             else:
                 op_out: np.ndarray = f(*tensor_vars, *op_args, **op_kwargs, out=out)
+
+            if _track.TRACK_GRAPH:
+                # Creating the output tensor can raise (e.g. unsupported dtype, or an
+                # integer-valued output with `constant=False`). It must do so here, before
+                # any state of the input tensors is modified and while their locks
+                # get released.
+                tensor_out = cls(
+                    op_out,
+                    constant=out_constant,
+                    copy=False,
+                    _creator=f,
+                    _base=None,
+                )
         except Exception as e:
             if _track.TRACK_GRAPH and _mem.MEM_GUARD:
                 _mem.release_writeability_lock_on_op(_uniques_bases_then_arrs)
@@ -1199,25 +1218,12 @@ class Tensor:
             f.replay_kwargs = op_kwargs
             f.replay_force_constant = constant
 
-        # record graph information
-        if constant is None:
-            if any(not var.constant for var in tensor_vars):
-                constant = None
-            else:
-                constant = True
-
         # record that a variable participated in that op
         ref_f = ReferenceType(f)  # type: WeakRef[Operation]
         for var in tensor_vars:
             var._ops.add(ref_f)
 
-        tensor_out = cls(
-            op_out,
-            constant=constant,
-            copy=False,
-            _creator=f,
-            _base=base,
-        )
+        tensor_out._base = base
 
         if parent_var is not None:
             parent_var._view_children.append(tensor_out)
